@@ -57,8 +57,8 @@ def step (_ : Unit) (j : Json) : Except String (Unit × Json) := do
                      attr := fun n a => attrl.contains (n, a) }
     let res := resolve k r ns ev
     let reserved := (reservedOf k).contains ev
-    let spec := table reserved (r.exact ns ev) (r.fn ns star) (r.exact star ev) (r.fn star star)
-      (r.cls ns) (r.cls star) (r.hasMethod ns ev) (r.hasMethod star ev)
+    let spec := table reserved (r.nsExact ns ev) (r.nsCatch ns) (r.exact star ev) (r.fn star star)
+      (r.nsCls ns) (r.cls star) (r.hasMethod ns ev) (r.hasMethod star ev)
     pure ((), Json.mkObj [("model", resToJson ns ev res), ("spec", resToJson ns ev spec),
       ("method", strToJson (methodName ev)), ("reserved", Json.bool reserved)])
   else if op == "reserved" then
